@@ -39,7 +39,10 @@ def keys_stack(case, comps):
             keys.append("stack-request-refused-without-documented-reason")
         else:
             keys.append("stack-field-%s-not-as-documented" % slug(c))
-    return keys or ["stack-output-violates-property"]
+    keys = keys or ["stack-output-violates-property"]
+    if case.get("concurrent"):
+        keys = [k + "-under-concurrent-use" for k in keys]
+    return keys
 
 
 def sent_values(q, name):
